@@ -110,6 +110,7 @@ type pathState struct {
 
 	atoms           map[int]bool
 	lazy            bool
+	sqrtMemo        map[int]*smt.Term
 	infeasibleEvent bool
 	wantWitness     bool
 	lastModel       map[string]string
